@@ -1,14 +1,19 @@
 """C19 — the public API is pure, repeatable and representation-independent.
 
 Theorems: lean/PersimVerif/Props/C19.lean over the memory-level IR of lean/PersimVerif/Model/IR.lean
-(`points_to_sound`, `no_owned_write`, `checked_no_owned_write`, `deterministic_of_no_global`, …).
+(`points_to_sound`, `no_owned_write`, `checked_no_owned_write`, `wellFormed_*`, `deterministic_of_no_global`,
+`result_function_of_arguments`, `seeded_result_function_of_arguments`, `second_call_same_result`, …).
 Model: REGENERATED FROM THE SOURCE on every run by harness/translator/py2ir.py (`pre_build`): one IR program, one
-solution and the obligations `safe_<entry>` / `glob_<entry>` per public entry point, in
-lean/PersimVerif/Generated/ApiIR.lean and its shards.  The translator and its classification table are TRUSTED.
+solution and the obligations `safe_<entry>` / `glob_<entry>` / `wf_<entry>` (and `repeat_<entry>` where a literal second call
+provably returns an equal result) per public entry point, in lean/PersimVerif/Generated/ApiIR.lean and its shards.  The
+translator and its classification table are TRUSTED.
 [T]: the translator self-test on a seeded snippet corpus (each known-bad snippet must be rejected by the Lean checker,
-no known-good one may be), and the DYNAMIC SWEEP over every public entry point (the same list the translator
-enumerates): arguments byte-compared before/after, calls repeated / interleaved / rebuilt and compared, seeded
-reproducibility of the mGH upper bound, and representation independence (nested lists / int arrays / float arrays).
+no known-good one may be; every translation must be well-formed), the check of the `out` / `copy` positions of the
+classification table against the installed numpy, and the DYNAMIC SWEEP over every public entry point (the list the
+translator enumerates plus the public methods inherited from scikit-learn): arguments byte-compared before/after, calls
+repeated / interleaved / rebuilt and compared — for plotting functions the "result" is what was drawn (the data of the new
+artists, and on which axes) —, seeded reproducibility of the mGH upper bound, and representation independence (nested lists /
+int arrays / float arrays, also for arguments that are lists of diagrams).
 The sweep is also the failing-input search when a generated obligation no longer builds.
 """
 import copy
@@ -23,16 +28,27 @@ RULE = ("every public entry point enumerated by the translator (functions, metho
         "dunder operators) is called on arguments built from one PRNG: diagrams of 1-8 points from lattice/half/dyadic/decimal/"
         "uniform coordinate modes (ties, duplicates, infinite deaths where the routine filters them), graphs of 3-7 vertices as "
         "dense/nested-list/sparse adjacency matrices, exact and approximate landscapes built from such diagrams, grids, kernels, "
-        "weights and matplotlib axes on Agg; each case = (entry point, argument seed); non-trivial = the call returned without an "
-        "exception on arguments holding at least one array/list with >= 2 elements; distinct by digest of (entry, seed)")
+        "weights and matplotlib axes on Agg (the axes handed over as ax= is pyplot's current axes in half of the cases and not in the "
+        "other half); each case = (entry point, argument seed); non-trivial = the call returned without an "
+        "exception on arguments holding at least one array/list with >= 2 elements; distinct by digest of (entry, seed). "
+        "Representation forms: float64 / int64 / nested list / uint8 / int8 / int16 / int32 of every diagram argument (a single diagram or "
+        "a list of diagrams), integer forms only where they hold the same values exactly")
 ASSUMPTIONS = [
     "the IR programs over-approximate the Python functions: this is the translator's job (trusted, validated by the snippet corpus and the sweep)",
     "diagram / matrix arrays have a numeric dtype, so np.copy / astype / arithmetic results hold no references to their inputs",
-    "caller-supplied callables (weight=, kernel=, key=) do not mutate their arguments; persim's own kernels and weights are entry points themselves",
+    "caller-supplied callables — ONLY the parameters / instance attributes named `weight` and `kernel` (tables.CALLER_CALLABLES) — do not "
+    "mutate their arguments; persim's own kernels and weights are entry points themselves. A call through any other value the translator "
+    "cannot resolve is an unknown call that may write everything reachable from its arguments and its receiver",
+    "a method name that some persim class defines, called on a receiver of unknown class, is taken to be one of those persim methods (or, "
+    "if the name is also in a table, the table's meaning)",
     "an instance is not also passed as another argument of its own method; attribute tables of instances may be updated (lazy caches, fit)",
     "library routines listed as read-only in the classification table (numpy/scipy/sklearn/matplotlib/hopcroftkarp) do not mutate their inputs "
     "(exercised by the byte comparison of the sweep on every run)",
-    "matplotlib Axes/Figure arguments and pyplot's global state are drawing targets, not 'arrays or lists', and are excluded from 'results'",
+    "matplotlib Axes/Figure arguments and pyplot's global state are drawing targets, not 'arrays or lists': the IR does not protect them. "
+    "The sweep compares WHAT IS DRAWN (data of the new line / collection / image / text / patch artists; not colours, sizes, limits) "
+    "between repeats, and demands that a call given ax= explicitly adds no artist to any other axes",
+    "a representation form that raises where the float form works is outside the property ('wherever the function accepts those forms'): "
+    "known limits are listed in FORMS_NOT_ACCEPTED, anything else is reported as a correspondence break (no failing input claimed)",
 ]
 TRUSTED = [
     "harness/translator/py2ir.py and harness/translator/tables.py: the source -> IR translator and its classification table (printed into the "
@@ -282,6 +298,104 @@ def new_ax(projection=None):
     return fig.add_subplot(projection=projection) if projection else fig.add_subplot()
 
 
+def given_ax(r):
+    """the axes handed to a plotting function as `ax=`: in half of the cases it is NOT pyplot's current axes (another figure
+    was opened after it, as in `fig, (left, right) = plt.subplots(1, 2)` or after any other plotting call)"""
+    ax = new_ax()
+    if r.random() < 0.5:
+        new_ax()
+    return ax
+
+
+# ----------------------------------------------------------------------------------------------- what a plotting call drew
+
+def _is_axes(o):
+    return type(o).__module__.startswith("matplotlib") and hasattr(o, "lines") and hasattr(o, "collections") and hasattr(o, "figure")
+
+
+def _axes_given(c):
+    out = []
+    for a in list(c.args) + [v for k, v in sorted(c.kwargs.items())]:
+        for x in (a if isinstance(a, (list, tuple)) else [a]):
+            if _is_axes(x) and not any(x is y for y in out):
+                out.append(x)
+    return out
+
+
+_ARTIST_LISTS = ("lines", "collections", "images", "texts", "patches")
+
+
+def _fingerprint(kind, art):
+    """the DATA of one artist (no colours, sizes or styles: those follow matplotlib's cycles and the figure size)"""
+    def arr(x):
+        try:
+            a = np.ma.filled(np.ma.asarray(x, dtype=float), np.nan)
+            return [list(a.shape), a.ravel().tolist()]
+        except Exception:
+            return repr(type(x))
+    try:
+        if kind == "lines":
+            return ["line", arr(art.get_data_3d()) if hasattr(art, "get_data_3d") else arr(art.get_xydata())]
+        if kind == "collections":
+            segs = art.get_segments() if hasattr(art, "get_segments") else []
+            vec = getattr(art, "_vec", None)                      # Poly3DCollection: the polygons' vertices
+            return ["collection", type(art).__name__, arr(art.get_offsets()), [arr(sg) for sg in segs][:200],
+                    arr(vec) if vec is not None else None, arr(art.get_array()) if art.get_array() is not None else None]
+        if kind == "images":
+            return ["image", arr(art.get_array())]
+        if kind == "texts":
+            return ["text", art.get_text(), arr(art.get_position())]
+        if kind == "patches":
+            return ["patch", type(art).__name__, arr(art.get_path().vertices)]
+    except Exception as e:
+        return [kind, "unreadable:" + type(e).__name__]
+    return [kind]
+
+
+def _open_axes():
+    import matplotlib.pyplot as plt
+    out = []
+    for n in plt.get_fignums():
+        out += list(plt.figure(n).axes)
+    return out
+
+
+class Drawing:
+    """artists per axes before a plotting call, so that what the call ADDED can be read off afterwards"""
+
+    def __init__(self, c):
+        import matplotlib.pyplot as plt
+        self.given = _axes_given(c)
+        self.before = {}
+        self.figs = set(plt.get_fignums())
+        for ax in self.given + _open_axes():
+            self.before.setdefault(id(ax), (ax, {k: len(getattr(ax, k)) for k in _ARTIST_LISTS}))
+
+    def delta(self):
+        """{"given": [...], "elsewhere": [...]}: the data of the artists added to the axes the call was handed / to any other axes
+        (pre-existing ones and those of figures the call opened); labels and titles of the given axes"""
+        out = {"given": [], "elsewhere": []}
+        seen = set()
+        for ax in self.given + _open_axes():
+            if id(ax) in seen:
+                continue
+            seen.add(id(ax))
+            n0 = self.before.get(id(ax), (ax, {}))[1]
+            new = []
+            for k in _ARTIST_LISTS:
+                for art in list(getattr(ax, k))[n0.get(k, 0):]:
+                    new.append(_fingerprint(k, art))
+            given = any(ax is g for g in self.given)
+            if given:
+                idx = [i for i, g in enumerate(self.given) if g is ax][0]
+                out["given"].append([idx, new, ax.get_title(), ax.get_xlabel(), ax.get_ylabel()])
+            else:
+                out["elsewhere"] += new
+        out["elsewhere"] = sorted(out["elsewhere"], key=repr)
+        out["explicit_axes"] = bool(self.given)
+        return out
+
+
 # --- distances, kernels, entropy
 @case("bottleneck.bottleneck")
 def _(r):
@@ -316,7 +430,8 @@ def _(r):
     pe = P("persistent_entropy").persistent_entropy
     if r.random() < 0.5:
         return Case(pe, [g_dgm(r, 2, integer=True, inf=True)], {"normalize": r.random() < 0.5}, dgm_args=(0,))
-    return Case(pe, [[g_dgm(r, 2, inf=True), g_dgm(r, 2)]], {"keep_inf": True, "val_inf": 20.0})
+    integer = r.random() < 0.5
+    return Case(pe, [[g_dgm(r, 2, integer=integer, inf=True), g_dgm(r, 2, integer=integer)]], {"keep_inf": True, "val_inf": 20.0}, dgm_args=(0,))
 
 
 @case("images_kernels.uniform")
@@ -385,7 +500,8 @@ def _(r):
     C = P("images").PersImage
     if r.random() < 0.5:
         return Case(C.transform, [mk_persimage(r, r.random() < 0.5), g_dgm(r, integer=True)], dgm_args=(1,))
-    return Case(C.transform, [mk_persimage(r), [g_dgm(r), g_dgm(r)]])
+    integer = r.random() < 0.5
+    return Case(C.transform, [mk_persimage(r), [g_dgm(r, integer=integer), g_dgm(r, integer=integer)]], dgm_args=(1,))
 
 
 @case("images.PersImage.weighting")
@@ -407,7 +523,7 @@ def _(r):
 def _(r):
     o = mk_persimage(r)
     img = o.transform(g_dgm(r, 2))
-    return Case(lambda o, imgs, ax: o.show(imgs, ax=ax), [o, img if r.random() < 0.5 else [img, img], new_ax()], plot=True)
+    return Case(lambda o, imgs, ax: o.show(imgs, ax=ax), [o, img if r.random() < 0.5 else [img, img], given_ax(r)], plot=True)
 
 
 @case("images.PersistenceImager.__init__")
@@ -446,40 +562,47 @@ def _(r):
     return Case(repr, [mk_imager(r)])
 
 
+def _imager_input(r):
+    """one diagram, or a list of diagrams (both are documented inputs of fit / transform / fit_transform)"""
+    if r.random() < 0.5:
+        return g_dgm(r, 2, integer=True)
+    integer = r.random() < 0.5
+    return [g_dgm(r, 2, integer=integer), g_dgm(r, 2, integer=integer)]
+
+
 @case("images.PersistenceImager.fit")
 def _(r):
     def f(o, d, skew):
         o.fit(d, skew=skew)
         return {k: x for k, x in vars(o).items()}
-    d = g_dgm(r, 2, integer=True) if r.random() < 0.5 else [g_dgm(r, 2), g_dgm(r, 2)]
-    return Case(f, [mk_imager(r), d, r.random() < 0.7], dgm_args=(1,) if isinstance(d, np.ndarray) else ())
+    d = _imager_input(r)
+    return Case(f, [mk_imager(r), d, r.random() < 0.7], dgm_args=(1,))
 
 
 @case("images.PersistenceImager.transform")
 def _(r):
     I = P("images").PersistenceImager
-    d = g_dgm(r, 2, integer=True) if r.random() < 0.5 else [g_dgm(r, 2), g_dgm(r, 2)]
-    return Case(I.transform, [mk_imager(r), d], {"skew": r.random() < 0.7, "n_jobs": r.choice([None, None, 1])},
-                dgm_args=(1,) if isinstance(d, np.ndarray) else ())
+    d = _imager_input(r)
+    return Case(I.transform, [mk_imager(r), d], {"skew": r.random() < 0.7, "n_jobs": r.choice([None, None, 1])}, dgm_args=(1,))
 
 
 @case("images.PersistenceImager.fit_transform")
 def _(r):
     I = P("images").PersistenceImager
-    d = g_dgm(r, 2, integer=True) if r.random() < 0.5 else [g_dgm(r, 2), g_dgm(r, 2)]
-    return Case(I.fit_transform, [mk_imager(r), d], {"skew": r.random() < 0.7}, dgm_args=(1,) if isinstance(d, np.ndarray) else ())
+    d = _imager_input(r)
+    return Case(I.fit_transform, [mk_imager(r), d], {"skew": r.random() < 0.7}, dgm_args=(1,))
 
 
 @case("images.PersistenceImager.plot_diagram")
 def _(r):
-    return Case(lambda o, d, skew, ax: o.plot_diagram(d, skew=skew, ax=ax), [mk_imager(r), g_dgm(r, 2, integer=True), r.random() < 0.5, new_ax()],
+    return Case(lambda o, d, skew, ax: o.plot_diagram(d, skew=skew, ax=ax), [mk_imager(r), g_dgm(r, 2, integer=True), r.random() < 0.5, given_ax(r)],
                 dgm_args=(1,), plot=True)
 
 
 @case("images.PersistenceImager.plot_image")
 def _(r):
     o = mk_imager(r)
-    return Case(lambda o, img, ax: o.plot_image(img, ax=ax), [o, o.transform(g_dgm(r, 2)), new_ax()], plot=True)
+    return Case(lambda o, img, ax: o.plot_image(img, ax=ax), [o, o.transform(g_dgm(r, 2)), given_ax(r)], plot=True)
 
 
 @case("images._transform")
@@ -767,7 +890,7 @@ def _(r):
 @case(LX + "ndsnap_regular")
 def _(r):
     g = np.linspace(0, 12, 13)
-    return Case(P("landscapes.auxiliary").ndsnap_regular, [np.clip(g_dgm(r, 2), 0, 12), g, g.copy()])
+    return Case(P("landscapes.auxiliary").ndsnap_regular, [np.clip(g_dgm(r, 2, integer=r.random() < 0.5), 0, 12), g, g.copy()], dgm_args=(0,))
 
 
 @case(LX + "_p_norm")
@@ -777,7 +900,7 @@ def _(r):
 
 @case(LT + "death_vector")
 def _(r):
-    return Case(P("landscapes.tools").death_vector, [g_dgms(r, True)], {"hom_deg": 0})
+    return Case(P("landscapes.tools").death_vector, [g_dgms(r, True)], {"hom_deg": 0}, dgm_args=(0,))
 
 
 def _pls(r):
@@ -838,7 +961,8 @@ def _(r):
 
 
 def _clipped(r):
-    return [np.clip(g_dgm(r, 2), 0, 12), np.clip(g_dgm(r, 2), 0, 12)]
+    integer = r.random() < 0.5
+    return [np.clip(g_dgm(r, 2, integer=integer), 0, 12), np.clip(g_dgm(r, 2, integer=integer), 0, 12)]
 
 
 @case(LR + "fit")
@@ -846,7 +970,7 @@ def _(r):
     def f(o, X):
         o.fit(X)
         return state(o)
-    return Case(f, [mk_landscaper(r), _clipped(r)])
+    return Case(f, [mk_landscaper(r), _clipped(r)], dgm_args=(1,))
 
 
 @case(LR + "transform")
@@ -854,7 +978,42 @@ def _(r):
     o = mk_landscaper(r)
     X = _clipped(r)
     o.fit(X)
-    return Case(lambda o, X: o.transform(X), [o, X])
+    return Case(lambda o, X: o.transform(X), [o, X], dgm_args=(1,))
+
+
+@case(LR + "get_params")
+def _(r):
+    o = mk_landscaper(r)
+    if r.random() < 0.5:
+        o.fit(_clipped(r))
+    return Case(lambda o, deep: o.get_params(deep=deep), [o, r.random() < 0.5])
+
+
+# --- public methods INHERITED from scikit-learn's mixins (no persim source, hence no IR program: dynamic sweep only)
+INHERITED = ["images.PersImage.fit_transform", LR + "fit_transform", LR + "set_params"]
+
+
+@case("images.PersImage.fit_transform")
+def _(r):
+    # TransformerMixin.fit_transform calls self.fit, which PersImage does not define: the call raises, every time
+    return Case(lambda o, d: o.fit_transform(d), [mk_persimage(r), g_dgm(r, integer=True)], dgm_args=(1,))
+
+
+@case(LR + "fit_transform")
+def _(r):
+    def f(o, X):
+        v = o.fit_transform(X)
+        return v, state(o)
+    return Case(f, [mk_landscaper(r), _clipped(r)], dgm_args=(1,))
+
+
+@case(LR + "set_params")
+def _(r):
+    def f(o, kw):
+        o.set_params(**kw)
+        return state(o), o.get_params()
+    kw = r.choice([{"num_steps": 17}, {"hom_deg": 1, "flatten": True}, {"start": 1.0, "stop": 9.0}, {}])
+    return Case(f, [mk_landscaper(r), kw], updates_self=True)
 
 
 def _plot_kw(r):
@@ -869,7 +1028,7 @@ def _(r):
 @case(LV + "plot_landscape_simple")
 def _(r):
     kw = _plot_kw(r)
-    kw["ax"] = new_ax()
+    kw["ax"] = given_ax(r)
     return Case(P("landscapes.visuals").plot_landscape_simple, [mk_exact(r) if r.random() < 0.5 else mk_approx(r)], kw, plot=True)
 
 
@@ -887,14 +1046,14 @@ def _(r):
 def _(r):
     kw = _plot_kw(r)
     kw.pop("num_steps")
-    kw["ax"] = new_ax()
+    kw["ax"] = given_ax(r)
     return Case(P("landscapes.visuals").plot_landscape_exact_simple, [mk_exact(r)], kw, plot=True)
 
 
 @case(LV + "plot_landscape_approx_simple")
 def _(r):
     kw = _plot_kw(r)
-    kw["ax"] = new_ax()
+    kw["ax"] = given_ax(r)
     return Case(P("landscapes.visuals").plot_landscape_approx_simple, [mk_approx(r)], kw, plot=True)
 
 
@@ -904,7 +1063,7 @@ def _(r):
     d = [g_dgm(r, 2, inf=True), g_dgm(r, 2)] if r.random() < 0.6 else g_dgm(r, 2, inf=True)
     if r.random() < 0.3:
         d = [x.astype(np.float32) for x in d] if isinstance(d, list) else d.astype(np.float32)
-    kw = {"ax": new_ax(), "lifetime": r.random() < 0.4, "legend": r.random() < 0.5}
+    kw = {"ax": given_ax(r), "lifetime": r.random() < 0.4, "legend": r.random() < 0.5}
     if isinstance(d, list) and r.random() < 0.3:
         kw["plot_only"] = [1]
     if r.random() < 0.3:
@@ -919,11 +1078,12 @@ def _(r):
 
 
 def _matching_case(r, which):
-    d1, d2 = g_dgm(r, 2), g_dgm(r, 2)
+    integer = r.random() < 0.5
+    d1, d2 = g_dgm(r, 2, integer=integer), g_dgm(r, 2, integer=integer)
     dist = P("bottleneck").bottleneck if which == "bottleneck" else P("wasserstein").wasserstein
     _, m = dist(d1, d2, matching=True)
     f = getattr(P("visuals"), which + "_matching")
-    return Case(f, [d1, d2, m], {"ax": new_ax(), "labels": ["x", "y"]}, plot=True)
+    return Case(f, [d1, d2, m], {"ax": given_ax(r), "labels": ["x", "y"]}, dgm_args=(0, 1), plot=True)
 
 
 BUILDERS["visuals.bottleneck_matching"] = lambda r: _matching_case(r, "bottleneck")
@@ -940,8 +1100,11 @@ def _call(c, seed):
         warnings.simplefilter("ignore")
         with np.errstate(all="ignore"):
             try:
+                before = Drawing(c) if c.plot else None
                 v = c.fn(*c.args, **c.kwargs)
-                if not c.plot:
+                if c.plot:
+                    v = before.delta()         # the "result" of a plotting call is what it drew (plain data), and where
+                else:
                     # freeze what was returned NOW: a result that aliases state a later call modifies (a mutable
                     # default argument, a cache) must not be compared with its own later self
                     try:
@@ -994,7 +1157,35 @@ def _fits(a, form):
     if not np.all(np.isfinite(f)):
         return False
     with np.errstate(all="ignore"):
-        return bool(np.array_equal(f.astype(NARROW_FORMS[form]).astype(float), f))
+        return bool(np.array_equal(f.astype(NARROW_FORMS.get(form, np.int64)).astype(float), f))
+
+
+# Known, documented limits of the forms a function accepts ON THE UNCHANGED TREE: (entry, "list" | "integer") -> the exception
+# classes it raises for that form while the float-array form works.  Anything outside this list is reported as a
+# correspondence break (a regression that stops accepting nested lists or integer arrays is noticed), never as a failing input:
+# the property speaks of the forms the function accepts.
+FORMS_NOT_ACCEPTED = {
+    # built from the `form_not_accepted:*` counters of seeds 0-7 on the unchanged tree (every integer form is accepted everywhere)
+    ("landscapes.approximate.PersLandscapeApprox.__init__", "list"): {
+        "raises": ["AxisError"], "why": "approximate.py:137 `self.dgms == np.inf` on a nested list is a scalar; np.any(..., axis=1) rejects it"},
+    ("landscapes.transformer.PersistenceLandscaper.transform", "list"): {
+        "raises": ["AxisError"], "why": "builds PersLandscapeApprox (above); the docstring asks for a list of (-,2) numpy.ndarrays"},
+    ("landscapes.transformer.PersistenceLandscaper.fit_transform", "list"): {
+        "raises": ["AxisError"], "why": "sklearn's fit(X).transform(X): transform as above (fit alone accepts nested lists)"},
+    ("landscapes.auxiliary.ndsnap_regular", "list"): {
+        "raises": ["TypeError"], "why": "auxiliary.py:142 `points[:, i]` needs an ndarray"},
+    ("landscapes.tools.death_vector", "list"): {
+        "raises": ["TypeError"], "why": "tools.py `dgms[hom_deg][:, 1]` needs an ndarray"},
+    ("persistent_entropy.persistent_entropy", "list"): {
+        "raises": ["IndexError"], "why": "a nested list is read as a LIST OF DIAGRAMS (documented), so a single diagram given as a nested "
+                                          "list becomes 1-D 'diagrams' [b, d]; a list of diagrams given as nested lists is accepted"},
+    ("sliced_wasserstein.sliced_wasserstein", "list"): {
+        "raises": ["AttributeError"], "why": "sliced_wasserstein.py:32 `PD1.shape` needs an ndarray"},
+    ("visuals.bottleneck_matching", "list"): {
+        "raises": ["AttributeError"], "why": "visuals.py `dgm1.size` needs an ndarray (after plot_diagrams, which also needs `.astype`)"},
+    ("visuals.wasserstein_matching", "list"): {
+        "raises": ["AttributeError"], "why": "visuals.py `dgm1.size` needs an ndarray"},
+}
 
 
 def _nontrivial(c):
@@ -1034,10 +1225,19 @@ def exercise(ctx, name, seed, kind, others=()):
         ctx.test("repeat_identical", ok)
         if not ok:
             problems.append(("repeat", "%s: repeating the call on the same arguments gives a different result" % name))
+    if c.plot and res1[0] == "ok" and res1[1]["explicit_axes"]:
+        # "no function modifies objects it was not passed": with an explicit ax=, nothing may appear on any other axes
+        ok = not res1[1]["elsewhere"]
+        ctx.test("plots_draw_only_on_given_axes", ok)
+        if not ok:
+            problems.append(("stray_artists", "%s was given ax= explicitly and drew %d artist(s) on axes it was not given"
+                             % (name, len(res1[1]["elsewhere"]))))
     # interleave calls to other entry points and to the same one on other arguments, then call again
     for oname, oseed in others:
         _call(_build(oname, oseed), oseed)
     _call(_build(name, seed + 1), seed + 1)
+    if c.plot:
+        new_ax()            # … and "another plotting call" that leaves a different figure current
     if c.updates_self:
         c = _build(name, seed)
     res3 = _call(c, seed)
@@ -1059,14 +1259,15 @@ def exercise(ctx, name, seed, kind, others=()):
         if not ok:
             problems.append(("seed", "%s is not reproducible under np.random.seed(12345)" % name))
     # representation independence [T only]
-    if c.dgm_args and res1[0] == "ok":
+    if c.dgm_args and res1[0] == "ok" and not any(p[0] in ("repeat", "history", "fresh") for p in problems):
+        # (a call whose result already differs between repeats cannot be compared across forms)
         base = None
         for form in ("float", "int", "list") + tuple(NARROW_FORMS):
             cf = _build(name, seed)
             if form == "int" and any(_has_inf(cf.args[i]) for i in c.dgm_args):
                 continue                      # an integer array cannot hold an infinite death
-            if form in NARROW_FORMS and not all(_fits(cf.args[i], form) for i in c.dgm_args):
-                continue                      # narrow dtypes only where they hold the same values exactly
+            if form not in ("float", "list") and not all(_fits(cf.args[i], form) for i in c.dgm_args):
+                continue                      # integer dtypes only where they hold the same values exactly
             if form in NARROW_FORMS:
                 ctx.count("representation_form:" + form)
             for i in c.dgm_args:
@@ -1080,6 +1281,15 @@ def exercise(ctx, name, seed, kind, others=()):
                 continue
             if rf[0] != "ok":
                 ctx.count("form_not_accepted:%s:%s:%s" % (name, form, rf[1]))
+                if rf[1] not in FORMS_NOT_ACCEPTED.get((name, "list" if form == "list" else "integer"), {}).get("raises", ()):
+                    # the float form works and this form raises, outside the committed list of known limits: the function
+                    # stopped accepting a form it used to accept (or raises differently).  The property only speaks about
+                    # forms the function accepts, so this is a correspondence break, not a failing input.
+                    ctx.test("form_acceptance_as_committed", False)
+                    problems.append(("form_acceptance", "%s: the %s form of the diagrams raises %s where the float form works; not in "
+                                     "the committed list FORMS_NOT_ACCEPTED" % (name, form, rf[1])))
+                else:
+                    ctx.test("form_acceptance_as_committed", True)
                 continue
             if base is None or base[0] != "ok":
                 continue
@@ -1178,12 +1388,21 @@ def self_test(ctx):
         lines.append("ir.check %s %s" % (r.prog.protocol(), py2ir.sol_protocol(r.sol)))
         lines.append("ir.fix %s %s" % (r.prog.protocol(), py2ir.sol_protocol(r.sol)))
         lines.append("ir.globals %s [] [] F" % r.prog.protocol())
+        lines.append("ir.wf %s %s" % (r.prog.protocol(), py2ir.sol_protocol(r.sol)))
         expect.append((exp, entry, src, r))
+    # a program with a dropped defining instruction must be rejected by `wellFormed` although `safe` accepts it
+    lines.append("ir.check [[0],[[4,1,0]]] [1,16,[1],[1]]")
+    lines.append("ir.wf [[0],[[4,1,0]]] [1,16,[1],[1]]")
     ans = common.ask(lines)
+    if ans[-2] is not True or ans[-1] is not False:
+        raise HarnessError("`wellFormed` does not reject a program that writes through a variable nothing defines: %r %r" % (ans[-2], ans[-1]))
+    ctx.test("wellformed_rejects_dropped_definition", True)
     for k, (exp, entry, src, r) in enumerate(expect):
-        safe, fix, glob = ans[3 * k], ans[3 * k + 1], ans[3 * k + 2]
+        safe, fix, glob, wf = ans[4 * k], ans[4 * k + 1], ans[4 * k + 2], ans[4 * k + 3]
         if fix is not True:
             raise HarnessError("the solver's solution is not a post-fixpoint for snippet %r" % src)
+        if wf is not True or not r.wf:
+            raise HarnessError("the translation of snippet %r is not well-formed (Lean %r, mirror %r)" % (src, wf, r.wf))
         verdict = "good" if (safe is True and glob is True) else "bad"
         mirror = "good" if (r.safe and r.globals_ok) else "bad"
         ctx.test("snippet_corpus:" + exp, verdict == exp)
@@ -1194,18 +1413,75 @@ def self_test(ctx):
 
 
 def cross_check(ctx, results):
-    """the executable Lean checker and the Python mirror must agree on every translated entry point"""
+    """the executable Lean checker and the Python mirror must agree on every translated entry point; every translated program
+    (with its solution) must be well-formed — also the dynamic-only one, which has no generated obligation"""
     lines = []
     for r in results:
         lines.append("ir.check %s %s" % (r.prog.protocol(), py2ir.sol_protocol(r.sol)))
         lines.append("ir.globals %s [%s] [%s] %s" % (r.prog.protocol(), ",".join(map(str, r.allowed_globals)),
                                                      ",".join(map(str, r.allowed_globals)), "T" if r.allow_rng else "F"))
+        lines.append("ir.wf %s %s" % (r.prog.protocol(), py2ir.sol_protocol(r.sol)))
     ans = common.ask(lines)
     for k, r in enumerate(results):
-        if (ans[2 * k] is True) != r.safe or (ans[2 * k + 1] is True) != r.globals_ok:
-            raise HarnessError("Lean checker and Python mirror disagree on %s: %r/%r vs %r/%r"
-                               % (r.name, ans[2 * k], ans[2 * k + 1], r.safe, r.globals_ok))
+        if (ans[3 * k] is True) != r.safe or (ans[3 * k + 1] is True) != r.globals_ok or (ans[3 * k + 2] is True) != r.wf:
+            raise HarnessError("Lean checker and Python mirror disagree on %s: %r/%r/%r vs %r/%r/%r"
+                               % (r.name, ans[3 * k], ans[3 * k + 1], ans[3 * k + 2], r.safe, r.globals_ok, r.wf))
+        if not r.wf and not r.untranslatable:
+            raise HarnessError("the translator produced an ill-formed program for %s (a variable is read that nothing defines, or a "
+                               "write target has an empty points-to set)" % r.name)
         ctx.count("ir.check:" + ("safe" if r.safe else "unsafe"))
+        ctx.count("ir.wf:" + ("well_formed" if r.wf else "ill_formed"))
+
+
+def table_check(ctx):
+    """[T] the positions of `out` / `copy` in tables.OUT_POS / COPY_POS / METHOD_OUT_POS / METHOD_COPY_POS against the installed
+    numpy's own signatures (ufuncs: number of inputs; functions: inspect.signature; ndarray methods: first line of the docstring)"""
+    import inspect
+    def resolve(d):
+        o = np
+        for part in d.split(".")[1:]:
+            o = getattr(o, part, None)
+            if o is None:
+                return None
+        return o
+    def position(o, what):
+        if isinstance(o, np.ufunc):
+            return o.nin if what == "out" and o.nout == 1 else None
+        try:
+            names = [n for n, q in inspect.signature(o).parameters.items() if q.kind in (q.POSITIONAL_ONLY, q.POSITIONAL_OR_KEYWORD)]
+        except (TypeError, ValueError):
+            return "unknown"
+        return names.index(what) if what in names else None
+    for d in sorted(tables.FRESH_FUNCS | set(tables.OUT_POS) | set(tables.COPY_POS)):
+        if not d.startswith("np.") or d.startswith("np.random."):
+            continue
+        o = resolve(d)
+        if o is None or isinstance(o, type):
+            continue
+        for what, tab in (("out", tables.OUT_POS), ("copy", tables.COPY_POS)):
+            pos = position(o, what)
+            if pos == "unknown":
+                ctx.count("table_positions:signature_not_available:%s" % d)
+                continue
+            ok = pos == tab.get(d)
+            ctx.test("table_out_positions", ok)
+            if not ok:
+                raise HarnessError("classification table: `%s` of %s is positional argument %r in the installed numpy, the table says %r"
+                                   % (what, d, pos, tab.get(d)))
+    for what, tab in (("out", tables.METHOD_OUT_POS), ("copy", tables.METHOD_COPY_POS)):
+        for m in sorted(tables.FRESH_METHODS):
+            meth = getattr(np.ndarray, m, None)
+            doc = (getattr(meth, "__doc__", "") or "").strip().split("\n")[0]
+            if meth is None or not doc.startswith("a." + m + "("):
+                continue
+            names = [x.strip().split("=")[0].strip() for x in doc[doc.index("(") + 1: doc.rindex(")")].split(",")]
+            names = [x for x in (names[: names.index("*")] if "*" in names else names) if x != "/"]
+            pos = names.index(what) if what in names else None
+            ok = pos == tab.get(m)
+            ctx.test("table_out_positions", ok)
+            if not ok:
+                raise HarnessError("classification table: `%s` of ndarray.%s is positional argument %r in the installed numpy, the "
+                                   "table says %r" % (what, m, pos, tab.get(m)))
 
 
 def run(ctx):
@@ -1225,6 +1501,12 @@ def run(ctx):
         "dynamic_only": {r.name: py2ir.load_policy()["dynamic_only"][r.name] for r in results if r.kind == "dynamic_only"},
     }
     ctx.extra["global_state_classification"] = {r.name: r.classification for r in results if r.classification != "pure"}
+    ctx.extra["second_call_theorem_applies"] = {
+        "what": "entry points with the generated theorem repeat_<entry> (pureCall and no global / RNG): Props/C19.lean "
+                "second_call_same_result — a literal second call on the heap the first call left returns an equal result",
+        "entry_points": [r.name for r in results if r.repeatable],
+        "not_covered": {r.name: ("updates attributes of its object (lazy cache / fit / setter)" if r.classification == "pure" else r.classification)
+                        for r in results if r.kind == "obligation" and not r.repeatable}}
     ctx.extra["programs"] = {"entry_points": len(results), "instructions": sum(len(r.prog.instrs) for r in results),
                              "allocation_sites": sum(r.sol["nObj"] - 1 for r in results)}
     ctx.extra["unknown_calls"] = sorted(tr.unknown_calls)
@@ -1239,6 +1521,7 @@ def run(ctx):
             for u in f["unsafe_writes"][:2]:
                 print("   %s: %s  <- %s" % (n, u["instr"], u["origin"]), flush=True)
     self_test(ctx)
+    table_check(ctx)
     cross_check(ctx, results)
     for r in results:
         if r.kind == "inplace_by_contract":
@@ -1251,6 +1534,11 @@ def run(ctx):
             raise HarnessError("%s is listed in dynamic_only.json but the analysis proves it safe: remove it from the list" % r.name)
     # --- the dynamic sweep, concentrated on the entry points whose obligation broke
     names = [r.name for r in results]
+    inherited = [n for n in INHERITED if n not in names]        # public methods inherited from scikit-learn: no IR, sweep only
+    for n in inherited:
+        kinds[n] = "inherited"
+    ctx.extra["entry_points"]["inherited_from_sklearn_dynamic_only"] = inherited
+    names = names + inherited
     missing = [n for n in names if n not in BUILDERS]
     if missing:
         ctx.extra["entry_points_without_argument_factory"] = missing
@@ -1259,9 +1547,12 @@ def run(ctx):
     suspects = sorted(set(flagged) | {r.name for r in results if r.ident in broken_text})
     callers = sorted({r.name for r in results if any(s.split(".")[-1] in (o.get("origin", "")) for s in suspects for o in r.unsafe)} - set(suspects))
     base, focus = ctx.n(30, 200), ctx.n(150, 1500)
-    pool = [n for n in names if n in BUILDERS and not n.startswith("landscapes.visuals") and kinds[n] != "inplace_by_contract"]
+    # calls interleaved between two calls of the case: every entry point, the (slow, 3-D) landscape plots at a third of the weight
+    pool = [n for n in names if n in BUILDERS and kinds[n] != "inplace_by_contract"]
+    pool = [n for n in pool if not n.startswith("landscapes.visuals")] * 3 + [n for n in pool if n.startswith("landscapes.visuals")]
     order = [n for n in suspects if n in BUILDERS] + [n for n in names if n in BUILDERS and n not in suspects]
     nviol = 0
+    forms_reported = set()
     for name in suspects:                                  # module-level state: compare with a fresh interpreter
         r0 = [r for r in results if r.name == name][0]
         if name in BUILDERS and not r0.globals_ok and "pyplot" not in r0.classification.split() and kinds[name] == "obligation":
@@ -1287,6 +1578,13 @@ def run(ctx):
                     raise
                 continue
             for check, text in problems:
+                if check == "form_acceptance":                 # a correspondence break: reported once per message, the search goes on
+                    if text not in forms_reported:
+                        forms_reported.add(text)
+                        ctx.violation(text, {"entry": name, "seed": seed, "check": check, "others": others,
+                                             "correspondence": "representation forms accepted", "line": name},
+                                      found_input=False, correspondence="FORMS_NOT_ACCEPTED")
+                    continue
                 nviol += 1
                 ctx.violation(text, {"entry": name, "seed": seed, "check": check, "others": others,
                                      "reproduce": "VERIF_SEED=%d ./check.py C19  (or: ./check.py C19 --replay <this file>)" % ctx.seed},
@@ -1331,24 +1629,38 @@ def replay(ctx, rep):
     problems = exercise(ctx, c["entry"], c["seed"], kinds.get(c["entry"], "obligation"), [tuple(o) for o in c.get("others", [])])
     for check, text in problems:
         print("  %s: %s" % (check, text))
-    return not problems
+    # a form that is no longer accepted is outside the property's quantifier ("wherever the function accepts those forms")
+    return not [p for p in problems if p[0] != "form_acceptance"]
 
 
 MANIFEST = {
     "text": "Proof over a memory-level IR that is regenerated from persim's source on every run. Lean theorems (no bound on program size, "
             "path, loop count or call sequence): points_to_sound (every solution of the inclusion constraints abstracts every execution, "
             "instructions taken in any order any number of times), no_owned_write / checked_no_owned_write (if the decidable checker `safe` "
-            "accepts, every caller-owned buffer keeps its data and element slots in every execution), deterministic_of_no_global (a program "
-            "without readGlobal computes its visible result as a function of its arguments and the RNG stream). The translator "
-            "harness/translator/py2ir.py emits one IR program per public entry point (functions, methods, constructors, properties, dunder "
-            "operators; persim-internal calls inlined per call site) plus the obligations safe_<entry> and glob_<entry>, each discharged by "
-            "kernel evaluation (decide +kernel, no native_decide). One entry point is dynamic-only (check_assignment_feasibility, see "
-            "dynamic_only.json) and one is in place by documented contract (PersImage.to_landscape: obligation unsafe_<entry>). Every run "
-            "also executes the dynamic sweep on all entry points.",
+            "accepts, every caller-owned buffer keeps its data and element slots in every execution), wellFormed_defined / _nonempty / "
+            "_inRange with unbound_of_undefined (the decidable guard `wellFormed`: no instruction reads a variable nothing defines, no write "
+            "is judged on an empty points-to set, no table lookup falls back on a default), deterministic_of_no_global (equal visible states "
+            "give equal visible results whatever the module-level state), result_function_of_arguments / seeded_result_function_of_arguments "
+            "(a program with no readGlobal and no rng — resp. with rng from the same stream position — run from two heaps that agree only on "
+            "what the arguments reach, up to a renaming of addresses, gives every variable the same value to every depth) and "
+            "second_call_same_result (for a `pureCall` program — safe and no attribute update of a caller-owned object — a literal second "
+            "call on the heap the first call left returns an equal result). The translator "
+            "harness/translator/py2ir.py emits one IR program per public entry point (117: functions, methods, constructors, properties, dunder "
+            "operators; persim-internal calls inlined per call site) plus the obligations safe_<entry>, glob_<entry>, wf_<entry> (115 each) "
+            "and repeat_<entry> (57: the entry points to which second_call_same_result applies; methods that cache on their object are "
+            "not among them), each discharged by kernel evaluation (decide +kernel, no native_decide). One entry point is dynamic-only "
+            "(check_assignment_feasibility, see dynamic_only.json) and one is in place by documented contract (PersImage.to_landscape: "
+            "obligation unsafe_<entry>: post-fixpoint, well-formed and not safe). Every run also executes the dynamic sweep on all entry "
+            "points and on the three public methods inherited from scikit-learn (no persim source, no IR).",
     "note": "Trusted: Lean kernel; the translator py2ir.py with its classification table tables.py and policy.json (the tie between source and "
-            "IR is the translator, validated by a seeded corpus of known-bad/known-good snippets and by the sweep, not proved). [T] only: "
-            "argument byte-comparison, repeat / interleave / fresh-object equality, np.random.seed reproducibility of the mGH upper bound, and "
+            "IR is the translator, validated by a seeded corpus of 76 known-bad / 29 known-good snippets, by the check of its out/copy "
+            "positions against the installed numpy, and by the sweep, not proved). The translator over-approximates what it cannot resolve: "
+            "calls through unresolved callables are unknown calls that may write everything reachable; only `weight` / `kernel` are assumed "
+            "read-only caller-supplied callables. [T] only: "
+            "argument byte-comparison, repeat / interleave / fresh-object equality (for plots: of what was drawn, and no artist on axes that "
+            "were not passed), np.random.seed reproducibility of the mGH upper bound, and "
             "representation independence (nested lists / int arrays / float arrays) — the IR has no values or dtypes. Attribute tables of "
-            "instances (lazy caches, fit) and matplotlib handles are outside 'arrays or lists'.",
+            "instances (lazy caches, fit) and matplotlib handles are outside 'arrays or lists'; the address-blind-driver hypothesis "
+            "(`Respects`) of the repeat theorems is a modelling assumption about Python code (results do not depend on id()).",
     "technique": "Lean 4 soundness proof of a points-to analysis over a translated IR + per-entry-point kernel-checked obligations + dynamic sweep",
 }
